@@ -24,7 +24,9 @@ symbols with the real objects and requires
 Search: the property's statement as a pure-Python oracle on real fitted vines (no Lean): needed vs
 used pseudo-observation per edge, U range, likelihood under two `np.empty` sentinels and against an
 independent by-variable recursion, sample shape / NaN / reproducibility; refit histories (the same object
-fitted on A then on B, or twice on B, against a fresh fit of B); deep: two-column statistics.
+fitted on A then on B, or twice on B, against a fresh fit of B); object states (restored via from_dict /
+Multivariate.from_dict / save+load / deepcopy, label kinds str / ints / permuted ints / tuples, columns with
+different marginals: same labels, bitwise the same seeded sample, quantile oracle per column); deep: two-column statistics.
 """
 import contextlib
 import math
@@ -657,7 +659,8 @@ OBS = ['corr:select_copula inputs = plan inputs', 'corr:edge.name/theta = select
        'corr:get_likelihood = sum log pdf along plan reads', 'corr:all reads written => deterministic',
        'corr:goodVine => get_likelihood = specification sum', 'corr:_sample_row = sampling plan',
        'corr:first tree rooted-tree certificate', 'corr:sample(n) shape/no-NaN/reproducible',
-       'corr:structure extractable', 'corr:parents in sort_edge order', 'corr:center vine => goodVine']
+       'corr:structure extractable', 'corr:parents in sort_edge order', 'corr:center vine => goodVine',
+       'corr:restored vine (from_dict / load / deepcopy) samples like the original']
 
 
 def run(ctx, lean):
@@ -694,6 +697,18 @@ def run(ctx, lean):
                 ctx.count(f'refused:{st}:{type(v).__name__}')
                 continue
             tie_one(ctx, lean, X, vt, t, v, log, eps_hex, note, rng)
+    # sampling, object states: the plan interpretation above ties the ORIGINAL object; a restored one must be it
+    srng = ctx.rng('states')
+    scounts = new_counts()
+    for kind in LABEL_KINDS:
+        d = srng.choice([2, 3])
+        X = gen_distinct_marginals(srng, d, kind)
+        ctx.count(f'object states: labels={kind}')
+        ctx.case(('states', kind, d))
+        probs = states_oracle(ctx, X, kind, scounts, srng)
+        if probs:
+            note('corr:restored vine (from_dict / load / deepcopy) samples like the original',
+                 {'labels': kind, 'd': d, 'state': probs[0][0], 'what': probs[0][1], 'detail': str(probs[0][2])[:200]})
     for k, b in bad.items():
         ctx.ob(k, b is None, 'tie', b or 'ok')
 
@@ -1107,10 +1122,125 @@ def refit_oracle(ctx, A, tA, B, t, vt, counts, rng):
                        'm.fit(A); m.fit(B) is observably the vine of a fresh fit(B)', CLS_REFIT)
 
 
+LABEL_KINDS = ('str', 'ints', 'perm', 'tuples')
+STATES = ('VineCopula.from_dict', 'Multivariate.from_dict', 'VineCopula.load', 'copy.deepcopy')
+
+
+def make_labels(kind, d):
+    if kind == 'str':
+        return [f'c{i}' for i in range(d)]
+    if kind == 'ints':
+        return [10 * (i + 1) for i in range(d)]
+    if kind == 'perm':
+        return [2, 0, 1][:d] if d == 3 else [1, 0]
+    return pd.Index([(chr(97 + i), i + 1) for i in range(d)], tupleize_cols=False)
+
+
+def gen_distinct_marginals(rng, d, kind):
+    """columns with clearly different location / scale (so one column's marginal cannot pass for another's)."""
+    rs = np.random.RandomState(rng.getrandbits(32))
+    n = rng.randint(60, 100)
+    z = rs.randn(n)
+    cols = [5 + 2 * z + rs.randn(n), -300 + 40 * (rng.choice([-0.7, 0.6]) * z + rs.randn(n)), 1e4 + 0.01 * (0.5 * z + rs.randn(n))]
+    order = rng.sample(range(3), d)
+    return pd.DataFrame(np.column_stack([cols[i] for i in order]), columns=make_labels(kind, d))
+
+
+def restored_states(v):
+    """name -> zero-argument constructor of an object that must behave like `v`."""
+    import copy
+    import os
+    import tempfile
+    from copulas.multivariate.base import Multivariate
+    from copulas.multivariate.vine import VineCopula
+
+    def via_file():
+        os.makedirs('/scratch/c17', exist_ok=True)
+        fd, path = tempfile.mkstemp(suffix='.pkl', dir='/scratch/c17')
+        os.close(fd)
+        try:
+            v.save(path)
+            return VineCopula.load(path)
+        finally:
+            os.unlink(path)
+    return {'VineCopula.from_dict': lambda: VineCopula.from_dict(v.to_dict()),
+            'Multivariate.from_dict': lambda: Multivariate.from_dict(v.to_dict()),
+            'VineCopula.load': via_file, 'copy.deepcopy': lambda: copy.deepcopy(v)}
+
+
+def labels_repr(cols):
+    return [f'{type(c).__name__}:{c!r}' for c in cols]
+
+
+def state_problems(v, X, seed, n=4, nq=16):
+    """a restored / copied vine samples bitwise like the original under the same seed, with the training labels
+    (type and order), and every sampled value is the quantile of its OWN column's marginal.
+    -> list of (state, what, detail)"""
+    out = []
+    try:
+        v.set_random_state(seed)
+        with np.errstate(all='ignore'):
+            A = v.sample(n)
+    except Exception as ex:  # noqa
+        return out
+    finally:
+        v.random_state = None
+    want_labels = labels_repr(X.columns)
+    if labels_repr(A.columns) != want_labels:
+        out.append(('VineCopula.sample', 'column-labels-differ', {'sampled': labels_repr(A.columns), 'training': want_labels}))
+    for state, make in restored_states(v).items():
+        try:
+            m = make()
+            m.set_random_state(seed)
+            with np.errstate(all='ignore'):
+                B = m.sample(n)
+            m.random_state = None
+        except Exception as ex:  # noqa
+            out.append((state, 'raises', f'{type(ex).__name__}: {str(ex)[:100]}'))
+            continue
+        if not isinstance(B, pd.DataFrame) or B.shape != A.shape or bool(B.isna().to_numpy().any()):
+            out.append((state, 'sample-shape-or-NaN', {'shape': getattr(B, 'shape', None), 'expected': A.shape}))
+            continue
+        if labels_repr(B.columns) != want_labels:
+            out.append((state, 'column-labels-differ', {'sampled': labels_repr(B.columns), 'training': want_labels}))
+        if not bits_eq(A.to_numpy(), B.to_numpy()):
+            out.append((state, 'sample-differs-from-original', {'original': A.to_numpy().tolist(), 'restored': B.to_numpy().tolist()}))
+        q = quantile_oracle(m, nq, seed)
+        if q:
+            out.append((state, 'marginal-quantile-inaccurate', q))
+    return out
+
+
+def states_oracle(ctx, X, kind, counts, rng):
+    from copulas.multivariate.vine import VineCopula
+    d = X.shape[1]
+    try:
+        with time_limit(FIT_TIMEOUT_S):
+            v = VineCopula('center')
+            v.fit(X, truncated=d)
+    except Exception:  # noqa
+        counts['refused'] += 1
+        return []
+    counts['object states'] += len(STATES)
+    probs = state_problems(v, X, rng.getrandbits(31))
+    inp = {'states': True, 'label_kind': kind, 'labels': labels_repr(X.columns), 'rows': X.to_numpy().tolist(),
+           'vine_type': 'center', 'truncated': d}
+    seen = set()
+    for state, what, detail in probs:
+        cls = f'{state}:{what}'
+        if cls in seen:
+            continue
+        seen.add(cls)
+        counts['failures'] += 1
+        ctx.fail_input(state, inp, detail, 'a restored / copied vine samples like the original: same labels (type, order), '
+                       'same values under the same seed, each column from its own fitted marginal', cls)
+    return probs
+
+
 def new_counts():
     return {'fits': 0, 'checked': 0, 'refused': 0, 'failures': 0, 'wrong-parent-U': 0, 'lik-nondeterministic': 0,
             'lik-wrong-value': 0, 'lik-nan-agrees': 0, 'two-column stats': 0, 'refit histories': 0,
-            'edges U-checked': 0, 'quantile checks': 0}
+            'edges U-checked': 0, 'quantile checks': 0, 'object states': 0}
 
 
 def search(ctx, deep):
@@ -1142,6 +1272,11 @@ def search(ctx, deep):
             refit_oracle(ctx, A, rng.randint(1, dA), B, rng.randint(1, dB), vt, counts, rng)
             tB = rng.randint(1, dB)
             refit_oracle(ctx, B, tB, B, tB, vt, counts, rng)
+    # object states: restored via from_dict / Multivariate.from_dict / save+load / deepcopy, four label kinds
+    for it in range(2 if deep else 1):
+        for kind in LABEL_KINDS:
+            d = rng.choice([2, 3])
+            states_oracle(ctx, gen_distinct_marginals(rng, d, kind), kind, counts, rng)
     ctx.support = dict(counts, deep=deep)
 
 
@@ -1150,6 +1285,11 @@ def replay(ctx, payload):
     counts = new_counts()
     before = len(ctx.failing)
     rng = ctx.rng('replay')
+    if inp.get('states'):
+        d = len(inp['rows'][0])
+        X = pd.DataFrame(np.array(inp['rows'], dtype=float), columns=make_labels(inp['label_kind'], d))
+        states_oracle(ctx, X, inp['label_kind'], counts, rng)
+        return any(f['class'] == payload.get('class') for f in ctx.failing[before:])
     if 'history' in inp:
         A = pd.DataFrame(np.array(inp['A']['rows'], dtype=float), columns=inp['A']['columns'])
         B = pd.DataFrame(np.array(inp['B']['rows'], dtype=float), columns=inp['B']['columns'])
